@@ -201,6 +201,7 @@ def run(ck):
     rule_ext(ck, u, ub, so)
     rule_atmost(ck, u, sym.Engine(u, sizeof=so, inline={'channel_has_buffer_ext'}, other_units=[ub]))
     rule_g(ck)
+    rule_trivial(ck)
     rule_h(ck, u, so, ub)
 
 
@@ -639,6 +640,39 @@ def rule_h(ck, u, so, ub):
             ck.verdict(bad is None, 'C17.h', fn + ':dispatch', cast.where(f),
                        'every use of a driver member lies behind the matching test of kind' if bad is None else bad)
     ck.floor('C17.h', 'uses of the driver union members', nuse, 8)
+
+
+def rule_trivial(ck):
+    """C17.g: the trivial endpoints (zero source, null sink, empty source) do what their names say for every n"""
+    rel = 'src/endpoints/trivial.c'
+    try:
+        u = cast.load(rel)
+    except Exception as e:
+        return ck.broken('C17.g', 'trivial.c', rel, str(e))
+    ck.unit(rel)
+    eng = sym.Engine(u, sizeof={})
+    n, data = ('v', 'n'), ('v', 'data')
+    for fn in ('run_source_zero', 'run_sink_null', 'run_source_empty'):
+        f = u.fn(fn)
+        if f is None:
+            ck.broken('C17.g', fn, '', 'function missing')
+            continue
+        ck.function(fn)
+        bad = None
+        for p in eng.paths(fn):
+            calls = [e for e in p.effects if e.kind in ('call', 'icall')]
+            rv = strip_cast(p.ret) if p.ret is not None else None
+            if fn == 'run_source_zero':
+                if len(calls) != 1 or calls[0].name != 'memset' or list(calls[0].args) != [data, C(0), n] or rv != n:
+                    bad = 'does not deliver exactly n zero octets: %s, returns %s' % ([(e.name, [fmt(a) for a in e.args]) for e in calls], fmt(p.ret) if p.ret else None)
+            elif fn == 'run_sink_null':
+                if calls or p.stores() or rv != n:
+                    bad = 'does not simply accept n octets'
+            else:
+                if calls or p.stores() or not (rv is not None and sym.is_c(rv) and rv[1] == -61):
+                    bad = 'does not report -ENODATA without touching the buffer'
+        ck.verdict(bad is None, 'C17.g', fn, cast.where(f),
+                   {'run_source_zero': 'fills exactly n octets with zero and reports n', 'run_sink_null': 'accepts n octets', 'run_source_empty': 'reports -ENODATA'}[fn] if bad is None else bad)
 
 
 def rule_g(ck):
